@@ -15,12 +15,14 @@ for every `mfront --list-dsl`, + bricks / criteria / flows / rules names):
  sub "mutants" engine B: Hypothesis-generated mutants of corpus files (same
                mutation operators, engine/gen/C35_mutlib.py) run through
                `mfront --interface=<i> f.mfront` or `mfront-query <queries>
-               f.mfront` (real ASan executables, scratch directory, 30 s limit).
+               f.mfront` (real ASan executables, scratch directory, 30 s of CPU time).
 
 Outcome classes: ok / reported error (exit status > 0; for mfront-query also
 SIGABRT + "terminate called after throwing ... what():" since its main lets
 exceptions reach std::terminate under libstdc++) / violation (sanitizer
-report, other signal, abort without exception message, timeout 3/3).
+report, other signal, abort without exception message, CPU time limit reached
+3/3 -- limits are CPU time (RLIMIT_CPU), not wall clock, so that a loaded
+machine cannot produce a verdict).
 
 Non-trivial: the input passes the DSL selection and at least 3 further
 keywords are processed (keywords located before the line of the reported
@@ -220,13 +222,6 @@ def battery_violations(text, inter, jobs):
     return [(c, o) for c, o in outs if o.cls in ("violation", "timeout")]  # "starved" is not a verdict
 
 
-def environment_healthy():
-    """a trivially valid file must be processed (the mfront semaphore is shared by the whole machine)"""
-    t = "@DSL MaterialLaw;\n@Law C35Health;\n@Output y;\n@Function{\n y = 1;\n}\n"
-    o = run_cfg(t, {"tool": "mfront", "interface": "c"}, timeout=60)
-    return o.cls == "ok"
-
-
 def confirm_timeout(text, cfg):
     for _ in range(3):
         if run_cfg(text, cfg, timeout=60).cls != "timeout":
@@ -358,16 +353,24 @@ def build_cached(src, name, libs, includes, extra, deps):
             for f in sorted(fn):
                 st = os.stat(os.path.join(dp, f))
                 h.update(("%s %d %d" % (f, st.st_size, st.st_mtime_ns)).encode())
+    h.update(fuzzpy.ASAN.encode())  # the run path of the target names the tree
     key = h.hexdigest()
     exe = os.path.join(VERIF, "build", "bin", name)
     stamp = exe + ".stamp"
-    if os.path.exists(exe) and os.path.exists(stamp) and open(stamp).read() == key:
-        return exe, ""
-    exe, err = fuzzpy.build_target(src, name, libs, includes=includes, extra_flags=extra)
-    if exe:
-        with open(stamp, "w") as f:
-            f.write(key)
-    return exe, err
+    import fcntl
+    os.makedirs(os.path.dirname(exe), exist_ok=True)
+    with open(exe + ".lock", "w") as lk:  # shards build the same target
+        fcntl.flock(lk, fcntl.LOCK_EX)
+        try:
+            if os.path.exists(exe) and os.path.exists(stamp) and open(stamp).read() == key:
+                return exe, ""
+            exe, err = fuzzpy.build_target(src, name, libs, includes=includes, extra_flags=extra)
+            if exe:
+                with open(stamp, "w") as f:
+                    f.write(key)
+            return exe, err
+        finally:
+            fcntl.flock(lk, fcntl.LOCK_UN)
 
 
 def build():
